@@ -458,6 +458,45 @@ pub mod exports {
         }
     }
 
+    /// The wake-up multiplexer of the broadcasters: `len` sub-task wakers and a
+    /// notifier that wakes the registered owner once enough sub-tasks were woken.
+    pub struct VTaskSet {
+        set: crate::util::task_set::TaskSet,
+        sink: diatomic_waker::WakeSink,
+    }
+
+    impl VTaskSet {
+        pub fn new(len: usize) -> Self {
+            let sink = diatomic_waker::WakeSink::new();
+            let mut set = crate::util::task_set::TaskSet::new(sink.source());
+            set.resize(len);
+
+            Self { set, sink }
+        }
+        /// Registers the waker of the owner (as `BroadcastFuture::poll` does).
+        pub fn register(&mut self, waker: &std::task::Waker) {
+            self.sink.register(waker)
+        }
+        /// Takes the scheduled sub-tasks; if there are none, arms a notification
+        /// after `notify_count` wake-ups.
+        pub fn take_scheduled(&self, notify_count: usize) -> Option<Vec<usize>> {
+            self.set.take_scheduled(notify_count).map(|it| it.collect())
+        }
+        pub fn discard_scheduled(&self) {
+            self.set.discard_scheduled()
+        }
+        pub fn has_scheduled(&self) -> bool {
+            self.set.has_scheduled()
+        }
+        pub fn resize(&mut self, len: usize) {
+            self.set.resize(len)
+        }
+        /// An owned waker of sub-task `idx`.
+        pub fn waker(&self, idx: usize) -> std::task::Waker {
+            (*self.set.waker_of(idx)).clone()
+        }
+    }
+
     impl VTimeReader {
         pub fn read(&self) -> MonotonicTime {
             self.0.read()
